@@ -674,6 +674,85 @@ def r09i(ctx, run):
                   "the written value is truncated (%s)" % (kind, kind, example))
 
 
+def r09k(ctx, run):
+    """inference of a body is resumable: infer_expr returns early when it meets a global that is not inferred yet and a NEW GlobalInferenceCtx runs it
+    again; statements finished in an earlier run are skipped through the set `inferred_stmts`, which outlives the runs.  A table of the context that is
+    filled while such a statement is processed must outlive the runs as well (or be filled on the skip path too): otherwise what was recorded for the
+    statements before the interruption is gone when the body's final pass reads the table - `local_usages` drives the re-inference that widens an
+    unannotated local to the literal it is later assigned; `expected_tys` holds the annotation a block's breaks are combined under."""
+    G = "hir_ty/src/globals.rs"
+    _, st = ctx.syn.item("struct_def", "GlobalInferenceCtx", G)
+    fields = {}
+    for f in st.get("fields", []):
+        fields[f["n"]] = canon(f["ty"]) if isinstance(f.get("ty"), dict) else str(f.get("ty"))
+    if "inferred_stmts" not in fields:
+        raise LookupError("GlobalInferenceCtx.inferred_stmts")
+    persistent = {n for n, t in fields.items() if t.lstrip().startswith("&")}
+    if "inferred_stmts" not in persistent:
+        raise LookupError("inferred_stmts is expected to be borrowed from the project context")
+    owned = {n for n, t in fields.items() if n not in persistent and re.search(r"(Map|Set|Vec)\b", t)}
+    WRITES = ("insert", "push", "extend", "entry", "get_mut", "append", "push_back")
+    methods = {f.qual.rsplit("::", 1)[-1]: f for f in ctx.syn.fns_in(G) if f.body is not None and not f.in_test and f.impl_ty and f.impl_ty.startswith("GlobalInferenceCtx")}
+
+    def direct_writes(node):
+        out = set()
+        for x in walk(node):
+            if x.get("k") == "mcall" and x["m"] in WRITES and x["r"].get("k") == "field" and canon(x["r"]["e"]) in ("self", "ctx") and x["r"]["m"] in owned:
+                out.add(x["r"]["m"])
+            if x.get("k") == "assign" and x["l"].get("k") == "field" and canon(x["l"]["e"]) in ("self", "ctx") and x["l"]["m"] in owned:
+                out.add(x["l"]["m"])
+        return out
+
+    def self_calls(node):
+        return {x["m"] for x in walk(node) if x.get("k") == "mcall" and canon(x["r"]) in ("self", "ctx") and x["m"] in methods}
+
+    ie = methods.get("infer_expr")
+    if ie is None:
+        raise LookupError("GlobalInferenceCtx::infer_expr")
+    # the statement arms and their skip guards
+    guarded = []  # (arm head, skip block, rest of the arm)
+    for m in synq.matches_on(ie.body):
+        for h, p_, g, b, a in synq.match_table(m):
+            if h and h.rsplit("::", 1)[-1] in ("PreStmt", "PostStmt") and b.get("k") == "block":
+                for i, stt in enumerate(b["s"]):
+                    e_ = stt.get("e") if stt.get("k") == "expr" else None
+                    if e_ is not None and e_.get("k") == "if" and "inferred_stmts.contains" in canon(e_["c"]) and any(x.get("k") == "continue" for x in walk(e_["t"])):
+                        guarded.append((h.rsplit("::", 1)[-1], e_["t"], b["s"][i + 1:], e_["ln"]))
+    if len(guarded) < 2:
+        raise LookupError("statement arms of infer_expr that skip statements already in inferred_stmts: %d" % len(guarded))
+    # methods called ONLY from regions behind a skip guard record on behalf of those regions
+    inside = set()
+    for _, _, rest, _ in guarded:
+        inside |= self_calls(rest)
+    outside_calls = set()
+    rest_ids = {id(x) for _, _, rest, _ in guarded for x in walk(rest)}
+    for f in methods.values():
+        for x in walk(f.body):
+            if x.get("k") == "mcall" and canon(x["r"]) in ("self", "ctx") and x["m"] in methods and id(x) not in rest_ids:
+                outside_calls.add(x["m"])
+    only_guarded = {m_ for m_ in inside if m_ not in outside_calls}
+    n = 0
+    for head, skip, rest, ln in guarded:
+        w_rest = direct_writes(rest)
+        for m_ in self_calls(rest) & only_guarded:
+            w_rest |= direct_writes(methods[m_].body)
+        w_skip = direct_writes(skip)
+        for m_ in self_calls(skip):
+            w_skip |= direct_writes(methods[m_].body)
+        for fld in sorted(w_rest):
+            n += 1
+            readers = sorted({f.qual.rsplit("::", 1)[-1] for f in methods.values() if any(x.get("k") == "field" and x["m"] == fld and canon(x["e"]) in ("self", "ctx") for x in walk(f.body))} - {"infer_expr"})
+            run.check(fld in w_skip, ie.site(ln), "%s arm: %s is recorded for skipped statements as well" % (head, fld), ie.qual, "survives-interruption:%s:%s" % (head, fld), ie.file, ln,
+                      "GlobalInferenceCtx.%s (%s) lives as long as ONE run of infer_expr, but the %s arm fills it only for statements that are not in `inferred_stmts` yet, and that set "
+                      "outlives the runs: after an interruption (the body meets a global that is not inferred yet) the entries of all statements finished before it are gone when %s read "
+                      "the table" % (fld, fields[fld][:60], head, ", ".join(readers[:4]) or "its readers"))
+    for fld in sorted(owned):
+        run.ok(ie.site(), "per-run table %s: %s" % (fld, "filled behind a skip guard" if any(fld in direct_writes(r) for _, _, r, _ in guarded) else "not filled by a statement arm"))
+    if not owned and n == 0:
+        # every table is borrowed from the project context: nothing can be lost
+        run.ok(ie.site(), "no table of GlobalInferenceCtx is owned by a single run")
+
+
 def rules(ctx):
     return [
         Rule("R09.a", "escape tables of string and char literals equal the reference table and each other; default arm rejects", 27, r09a),
@@ -683,6 +762,7 @@ def rules(ctx):
         Rule("R09.g", "weak-type replacement retypes only expressions whose value is made at that type; index/member expressions keep the type of the memory they read", 5, r09g),
         Rule("R09.h", "a weak local that is assigned a sized value takes the value's type (plain-assignment arm of reinfer_usages evaluated)", 4, r09h),
         Rule("R09.i", "re-inference carries a widened literal's type up through every form whose type follows its parts", 8, r09i),
+        Rule("R09.k", "tables filled while a statement is inferred survive the interruptions of the body's inference (or are filled for skipped statements too)", 1, r09k),
         Rule("R09.f", "code generation materialises the written value: iconst/fNNconst/data object built from n without sign extension or truncation; constant data at the type's width", 20, r09f),
         Rule("R09.d", "weak literal widening thresholds do not exceed the maximum of the type codegen gives weak ints", 6, r09d),
     ]
